@@ -478,7 +478,7 @@ def sec_cutoff(rec, patches=None):
         def __init__(self, img, cutoff):
             self.img, self.cutoff = img, cutoff
 
-    xp.lowpass_filter_ft = lambda img, cutoff=None, order=2: LP(img, cutoff)
+    xp.lowpass_filter_ft = stubs.like(xp.lowpass_filter_ft, lambda img, cutoff=None, order=2, *a, **k: LP(img, cutoff))
     shape = (1, 1, 2)
     t, t2, a, mk = img("t", shape), img("u", shape), img("a", shape), img("m", shape)
     c = real("cutoff")
